@@ -76,7 +76,7 @@ func runC13(x *mc.X) {
 		x.Skip() // fresh, or duplicate of another staleness choice
 	}
 	logger := ""
-	if failure < 0 || failure == 503 {
+	if failure < 0 || failure == 503 || x.Tier() == "thorough" {
 		logger = mc.Pick(x, "logger", []string{"", "text"})
 	}
 	w := world.New(world.Opt{Logger: logger})
